@@ -36,6 +36,9 @@ AdmitsOp(f, o) ==
     /\ (f \in { "arch", "inode" } => o \in { "=", "!=" })
     /\ (f = "perm" => o = "=")
 
+ArchNames == { "b64", "b32", "x86_64", "i386", "aarch64", "arm", "ppc", "ppc64", "ppc64le", "s390", "s390x",
+               "mips", "mipsel", "mips64", "mipsel64", "ia64", "armeb", "sparc", "sparc64", "m68k", "parisc", "parisc64", "loongarch64" }
+
 VClasses(f) ==
     IF f \in UidFields THEN { "zero", "small", "max31", "high", "unset", "minus1", "name_root", "overflow" }
     ELSE IF f \in GidFields THEN { "zero", "small", "max31", "high", "unset", "minus1", "name_root", "overflow" }
@@ -44,9 +47,14 @@ VClasses(f) ==
     ELSE IF f \in NumFields THEN { "zero", "one", "dec", "hex", "neg", "max", "overflow" }
     ELSE IF f = "exit" THEN { "zero", "pos", "neg", "errno_neg", "errno_pos", "min", "overflow" }
     ELSE IF f = "msgtype" THEN { "num", "name", "high", "overflow" }
-    ELSE IF f = "arch" THEN { "b64", "b32", "x86_64", "i386", "aarch64", "arm", "ppc", "ppc64", "ppc64le", "s390", "s390x" }
+    ELSE IF f = "arch" THEN ArchNames
     ELSE IF f = "perm" THEN { "r", "w", "x", "a", "rw", "wa", "xr", "rwxa" }
     ELSE { "file", "dir", "socket", "symlink", "char", "block", "fifo" }
+
+\* an arch filter next to syscalls given by number: names are the printer's choice where the library has
+\* a table for the architecture, numbers where it has none - either way the listing must exist and mean the same
+ArchNum == { [c |-> "archnum", arch |-> a, op |-> o, n |-> n, m |-> m] : a \in ArchNames \ { "b64", "b32" }, o \in { "=", "!=" },
+               n \in { 0, 5, 400 }, m \in { 1, 2047 } }
 
 FopCases == { [c |-> "fop", field |-> f, op |-> o, vclass |-> v, list |-> l] :
                 f \in Fields, o \in Ops, l \in Lists, v \in UNION { VClasses(g) : g \in Fields } }
@@ -72,9 +80,10 @@ Watch == { [c |-> "watch", perm |-> p, wtype |-> t, nkeys |-> k] : p \in PermSet
 \* the 64-entry field table is filled by -F and by -C arguments alike; cmp says where the -C ones sit
 \* syscall rules laid out like a file watch (path=/dir= then perm=, a key): only the exact shape of a watch
 \* (always,exit, =, path before perm) may be listed as -w; every other one has to stay a syscall rule
-WLike == { [c |-> "wlike", action |-> a, pf |-> f, pop |-> o, perm |-> p, permv |-> v, nkeys |-> k, sc |-> s] :
+\* spell: how the name is written - as it is, with a trailing slash, a doubled slash, a dot component (-w cleans its argument)
+WLike == { [c |-> "wlike", action |-> a, pf |-> f, pop |-> o, perm |-> p, permv |-> v, nkeys |-> k, sc |-> s, spell |-> w] :
              a \in Actions, f \in { "path", "dir" }, o \in { "=", "!=" }, p \in { "none", "after", "before" },
-             v \in { "r", "wa", "rwxa" }, k \in 0..2, s \in { "none", "all", "one" } }
+             v \in { "r", "wa", "rwxa" }, k \in 0..2, s \in { "none", "all", "one" }, w \in { "clean", "slash", "double", "dot" } }
 
 NFields == { [c |-> "nfields", n |-> n, key |-> k, cmp |-> m] : n \in { 0, 1, 2, 31, 62, 63, 64, 65, 66, 70 }, k \in BOOLEAN,
              m \in { "none", "last", "last2", "first", "all" } }
@@ -101,7 +110,7 @@ Flags == FlagCases
 
 All == (IF "fop" \in Family THEN Fop ELSE {}) \cup (IF "shape" \in Family THEN Shape ELSE {})
        \cup (IF "cmp" \in Family THEN Cmp ELSE {}) \cup (IF "watch" \in Family THEN Watch \cup WLike ELSE {})
-       \cup (IF "nfields" \in Family THEN NFields ELSE {}) \cup (IF "sysnum" \in Family THEN SysNum \cup SysBig ELSE {})
+       \cup (IF "nfields" \in Family THEN NFields ELSE {}) \cup (IF "sysnum" \in Family THEN SysNum \cup SysBig \cup ArchNum ELSE {})
        \cup (IF "decode" \in Family THEN Decode ELSE {}) \cup (IF "flags" \in Family THEN Flags ELSE {})
 
 Init == c \in All
